@@ -30,7 +30,7 @@ from .fhdl2smt import Design, Unroller, RefSim
 class Bench:
     def __init__(self, name, top, inputs, consts=None, free_init=None, init_assume=(),
                  assumes=None, bads=None, covers=None, schedule=None, clock_domains=("sys",),
-                 info=None, fairness=None):
+                 info=None, fairness=None, tick_inputs=None, always_tick=()):
         self.name = name
         self.top = top
         self.inputs = collections.OrderedDict(inputs)
@@ -43,6 +43,8 @@ class Bench:
         self.schedule = schedule
         self.info = info or {}
         self.fairness = fairness  # for schedule == "free": max consecutive frames a domain may not tick
+        self.tick_inputs = dict(tick_inputs or {})   # domain -> input Signal that mirrors "this domain ticks at the end of the frame"
+        self.always_tick = tuple(always_tick)
         t0 = time.time()
         stable = {}
         for n, s in list(self.inputs.items()) + list(self.consts.items()) + list(self.free_init.items()):
@@ -82,10 +84,16 @@ class Unrolled:
         if bench.schedule == "free":
             doms = sorted(d.sync_targets.keys())
             for t in range(K + 1):
-                cons.append(z3.Or(*[U.tick_vars[t][cd] for cd in doms]))
+                cons.append(z3.Or(*[U.tick_vars[t][cd] for cd in doms if cd not in bench.always_tick]))
+                for cd in bench.always_tick:
+                    if cd in U.tick_vars[t]:
+                        cons.append(U.tick_vars[t][cd])
+                for cd, sig in bench.tick_inputs.items():
+                    if cd in U.tick_vars[t] and sig in U.fvars[t]:
+                        cons.append(U.bit(sig, t) == U.tick_vars[t][cd])
             if bench.fairness:
                 R = bench.fairness
-                for cd in doms:
+                for cd in [x for x in doms if x not in bench.always_tick]:
                     for t in range(0, K + 1 - R):
                         cons.append(z3.Or(*[U.tick_vars[u][cd] for u in range(t, t + R + 1)]))
         # goal booleans
